@@ -455,7 +455,7 @@ class C03(Spec):
     # ------------------------------------------------------------------ extra stages: translator tie + coupon tie
     def extra_stages(self, rep, tier, rng, broken):
         self._trans = rep.cov.setdefault("transitions_hit", {})
-        exe = os.path.join(core.BUILD, "hll_h")
+        exe = core.harness_exe("hll_h")
         if not os.path.exists(exe):
             return
         # (2) translator tie: generated values == values of the compiled headers
